@@ -201,6 +201,13 @@ def obligations(tier):
                               bounds='structure with a ligand (%s) under a symbolic grid translation t in [0,2.509] along y' % name,
                               claim_doc='the same groups (incl. every ligand group) with identical pKa and determinants with and without --protonate-all',
                               max_paths=5000, split_input=('shift_thousandths', 12) if name.startswith('complex') else None, wall_s=170 if tier == 'quick' else 1200))
+    from .c19 import mk_serials_irrelevant
+    for name, res in ([('complex_MTX', 57)] if tier == 'quick' else [('complex_MTX', 57), ('complex_MTX', 27), ('complex_ZN', 45)]):
+        obs.append(Obligation('O2-serial-column-in-a-two-MODEL-file[%s,MODEL2 lacks side chain %d]' % (name, res), mk_serials_irrelevant(name, truncated_model=res),
+                              code=['propka/atom.py:Atom.set_properties (numb)', 'propka/molecular_container.py:MolecularContainer.top_up_conformations', 'propka/conformation_container.py:ConformationContainer.top_up_from_atoms',
+                                    'propka/ligand.py:assign_sybyl_type', 'propka/run.py:single (whole pipeline)'],
+                              bounds='two-MODEL file from %s (protein + ligand + ion), MODEL 2 without the side chain of residue %d; serial column rewritten by 8 numbering schemes (continued, restarting, descending, all equal, shuffled, hybrid-36 range, interleaved) plus a symbolic offset' % (name, res),
+                              claim_doc='atoms after topping up, bonds, groups incl. ligand group types, pKa values and determinants identical in every conformation and in the average', max_paths=5000, split_input=('numbering', 8), wall_s=170 if tier == 'quick' else 1200))
     obs.append(Obligation('O2-element-from-name-columns', o_element_from_name_columns, code=['propka/atom.py:Atom.set_properties'],
                           bounds='the four atom-name characters symbolic over small alphabets (blank, digits 1-2, H C N O A B D E)',
                           claim_doc='every PDB spelling of a hydrogen name yields element H (so that it is stripped); C/N/O in column 14 keep their element', max_paths=20000))
